@@ -123,6 +123,7 @@ func (p *StreamPool) Dump() {
 // remove takes a connection out of the pool and makes the object available
 // for reuse. The caller holds conn.mu.
 func (p *StreamPool) remove(conn *connection) {
+	verifBeforePoolLock(&p.mu, true)
 	p.mu.Lock()
 	if c, ok := p.conns[conn.key]; ok && c == conn {
 		delete(p.conns, conn.key)
@@ -144,6 +145,7 @@ func NewStreamPool(factory StreamFactory) *StreamPool {
 }
 
 func (p *StreamPool) connections() []*connection {
+	verifBeforePoolLock(&p.mu, false)
 	p.mu.RLock()
 	conns := make([]*connection, 0, len(p.conns))
 	for _, conn := range p.conns {
@@ -168,6 +170,7 @@ func (p *StreamPool) newConnection(k key, s Stream, ts time.Time) (c *connection
 	c, p.free = p.free[index], p.free[:index]
 	// an assembler that looked the object up under its previous key may be
 	// about to lock it: it must see either the old or the new state
+	verifBeforeResetLock(&c.mu)
 	c.mu.Lock()
 	c.reset(k, s, ts)
 	c.mu.Unlock()
@@ -191,6 +194,7 @@ func (p *StreamPool) getHalf(k key) (*connection, *halfconnection, *halfconnecti
 // does not already exist, returns nil.  This allows us to check for a
 // connection without actually creating one if it doesn't already exist.
 func (p *StreamPool) getConnection(k key, end bool, ts time.Time, tcp *layers.TCP, ac AssemblerContext) (*connection, *halfconnection, *halfconnection) {
+	verifBeforePoolLock(&p.mu, false)
 	p.mu.RLock()
 	conn, half, rev := p.getHalf(k)
 	p.mu.RUnlock()
@@ -202,6 +206,7 @@ func (p *StreamPool) getConnection(k key, end bool, ts time.Time, tcp *layers.TC
 		return nil, nil, nil
 	}
 	verifYield("getConnection:before-insert")
+	verifBeforePoolLock(&p.mu, true)
 	p.mu.Lock()
 	defer p.mu.Unlock()
 	if conn2, half2, rev2 := p.getHalf(k); conn2 != nil {
